@@ -47,6 +47,7 @@ struct SImg {
   int component_alpha = 0;
   int accessors = 0;
   int dither = 0;
+  int dox = 0, doy = 0;        // dither offset
   template <class A> void io(A &a) {
     a.f("kind", kind);
     a.f("bits", bits);
@@ -75,6 +76,8 @@ struct SImg {
     a.f("component_alpha", component_alpha);
     a.f("accessors", accessors);
     a.f("dither", dither);
+    a.f("dox", dox);
+    a.f("doy", doy);
   }
 };
 
@@ -248,7 +251,10 @@ inline void apply_props(pixman_image_t *im, const SImg &d, BuiltImg &b, bool is_
   if (d.client_clip) pixman_image_set_has_client_clip(im, 1);
   if (d.source_clipping) pixman_image_set_source_clipping(im, 1);
   if (d.component_alpha) pixman_image_set_component_alpha(im, 1);
-  if (d.dither && is_dest) pixman_image_set_dither(im, (pixman_dither_t)d.dither);
+  if (d.dither && is_dest) {
+    pixman_image_set_dither(im, (pixman_dither_t)d.dither);
+    if (d.dox || d.doy) pixman_image_set_dither_offset(im, d.dox, d.doy);
+  }
 }
 
 inline void build_img(const SImg &d, BuiltImg &b, bool is_dest) {
@@ -580,6 +586,13 @@ inline Scene gen_scene(const GenOpts &o) {
   }
   if (coin(6)) d.repeat = (int)R(1, 3);
   if (o.accessors) d.accessors = coin(5);
+  if (coin(8)) {
+    // dithered destinations (always composited in floating point), with offsets on either side of zero and beyond the
+    // size of the dither matrices
+    d.dither = (int)R(1, 5);
+    d.dox = (int)R(-70, 70);
+    d.doy = (int)R(-70, 70);
+  }
   sc.src = gen_source(o, sc.w + 4, sc.h + 2, false);
   sc.sx = (int)R(-2, 5);
   sc.sy = (int)R(-1, 3);
